@@ -36,7 +36,9 @@ func VerifH_C18_FailedStartup() {
 // VerifH_C18_InitCacheLeak: when the second cache backend fails to initialise, the first one is closed.
 func VerifH_C18_InitCacheLeak() {
 	verifrt.Redirect("github.com/IrineSistiana/mosproxy/internal/cache.NewRedisCache",
-		func(u string, logger *zerolog.Logger) (*cache.RedisCache, error) { return nil, errors.New("redis down") })
+		func(u string, logger *zerolog.Logger) (*cache.RedisCache, error) {
+			return nil, errors.New("redis down")
+		})
 	r := vRouter(nil, false)
 	c, err := r.initCache(&CacheConfig{MemSize: 1024, Redis: "redis://127.0.0.1:1"})
 	verifrt.Reach("returned")
